@@ -52,7 +52,7 @@ func Generate(w io.Writer, filename string, metaData *MetaData, injectors []*Inj
 	file.Decls = append(file.Decls, funcDecls...)
 
 	// Add DO NOT EDIT comment
-	_, err := w.Write([]byte("// Code generated by kessoku. DO NOT EDIT.\n\n"))
+	_, err := w.Write([]byte(generatedHeader + "\n\n"))
 	if err != nil {
 		return fmt.Errorf("write DO NOT EDIT comment: %w", err)
 	}
